@@ -206,3 +206,41 @@ func VerifH_fai_new_index() {
 	vrt.Assert(ok, "bases-match")
 	vrt.Reach("end")
 }
+
+// C11: fai.NewIndex over arbitrary bytes from a small alphabet, then the accessors.
+func VerifH_total_fai_newindex() {
+	vrt.LenientFmt(true)
+	N := vrt.Param("FAILEN", 6)
+	sel := vrt.Bytes("text", N)
+	n := vrt.Int("len")
+	vrt.Assume(n >= 0)
+	vrt.Assume(n <= N)
+	text := make([]byte, N)
+	for i := range text {
+		text[i] = ">\n\r aA\t>"[sel[i]&7]
+	}
+	idx, err := NewIndex(bytes.NewReader(text[:n]))
+	if err != nil {
+		vrt.Reach("error")
+		return
+	}
+	f := NewFile(bytes.NewReader(text[:n]), idx)
+	for name, rec := range idx {
+		s, err := f.Seq(name)
+		if err == nil {
+			buf := make([]byte, 2)
+			for i := 0; i < N+1; i++ {
+				if _, err := s.Read(buf); err != nil {
+					break
+				}
+			}
+		}
+		if rec.Length > 0 {
+			_ = rec.Position(0)
+		}
+		_, _ = f.SeqRange(name, 0, rec.Length)
+	}
+	var out bytes.Buffer
+	_ = WriteTo(&out, idx)
+	vrt.Reach("ok")
+}
